@@ -476,6 +476,54 @@ theorem read_transparent (sem : Sem) (s : CState) (hinv : CInv sem s) (i : Nat) 
         rw [hcoh.2.2, hv] at hall; cases hall
     · split <;> rfl
 
+/-- the tensordict-valued counterpart: whatever the cache does (bypass, miss, hit), the tensordict a read returns holds
+exactly the entries a fresh computation builds from the current bindings — as long as nobody restructured a memoised
+result (`CInv`), and no other query stored under the same key. -/
+theorem read_transparent_alloc (sem : Sem) (s : CState) (hinv : CInv sem s) (i : Nat) (q : Query)
+    (hl : live s.heap i = true) (ha : q.allocates = true)
+    (hkey : ∀ e, e ∈ s.cache i → e.1.key = q.key → e.1.sem = q.sem ∧ e.1.allocates = q.allocates) :
+    ∃ o, (readEv sem s i q).2.1 = .object o ∧
+      bindings ((readEv sem s i q).1.heap.node o) = (sem.build q.sem (content s.heap i)).map (fun e => (e.1, e.2.1)) := by
+  have fresh : bindings ((s.heap.alloc { alive := true, leaves := sem.build q.sem (content s.heap i) }).node s.heap.size) =
+      (sem.build q.sem (content s.heap i)).map (fun e => (e.1, e.2.1)) := by
+    rw [alloc_node_self]; simp [bindings]
+  unfold readEv
+  simp only [ha, if_true]
+  split
+  · exact ⟨s.heap.size, rfl, fresh⟩
+  · split
+    · rename_i e hlk
+      have hmem : e ∈ s.cache i ∧ e.1.key = q.key := by
+        clear hkey
+        generalize s.cache i = l at hlk
+        induction l with
+        | nil => simp [lookup] at hlk
+        | cons a l ih =>
+          simp only [lookup] at hlk
+          split at hlk
+          · rename_i hk; cases hlk; exact ⟨List.mem_cons_self, hk⟩
+          · exact ⟨List.mem_cons_of_mem _ (ih hlk).1, (ih hlk).2⟩
+      obtain ⟨hsem, hall⟩ := hkey e hmem.1 hmem.2
+      have hcoh := hinv.coh i e.1 e.2 hmem.1
+      cases hr : e.2 with
+      | value c =>
+        rw [hr] at hcoh
+        simp only at hcoh
+        rw [hcoh.2, ha] at hall; cases hall
+      | object o =>
+        rw [hr] at hcoh
+        simp only at hcoh
+        exact ⟨o, rfl, by rw [hcoh.1, hsem]⟩
+    · split
+      · exact ⟨s.heap.size, rfl, fresh⟩
+      · exact ⟨s.heap.size, rfl, fresh⟩
+
+/-- the lock API never touches an entry: `lock_()` and `unlock_()` (accepted or refused) leave every key bound to the same
+object in every tensordict (C05's "such calls … leave the tree as it was", for the lock calls themselves). -/
+theorem lock_api_keeps_bindings (h : Heap) (i : Nat) :
+    SameStruct h (lockEv h i).1 ∧ SameStruct h (unlockEv h i).1 ∧ SameStruct h (shareEv h i) :=
+  ⟨lockEv_struct h i, unlockEv_struct h i, shareEv_struct h i⟩
+
 /-! ## arguments keyed by address -/
 
 /-- distinct objects that are alive together have distinct addresses (CPython); a *dead* object's address may be reused -/
